@@ -17,7 +17,9 @@
  * along with this program.  If not, see <https://www.gnu.org/licenses/>.
  */
 
-#![forbid(unsafe_code)]
+// deny instead of forbid: rkyv.rs has to repeat one unsafe call of rkyv's default
+// `deserialize_shared` to add a missing check to it
+#![deny(unsafe_code)]
 #![warn(rust_2018_idioms)]
 #![deny(
     dead_code,
